@@ -57,6 +57,15 @@ class Query:
     offset: int | None = None
 
 
+def with_default_arrange(expr: ColExpr, order_by: list[Order]) -> ColExpr:
+    def set_arrange(e: ColExpr) -> ColExpr:
+        if isinstance(e, ColFn) and e.op.ftype == Ftype.WINDOW and "arrange" not in e.context_kwargs:
+            e.context_kwargs = e.context_kwargs | {"arrange": order_by}
+        return e
+
+    return expr.map_subtree(set_arrange)
+
+
 class SqlImpl(TableImpl):
     def __new__(cls, *args, **kwargs) -> "SqlImpl":
         engine: str | sqa.Engine = inspect.signature(cls.__init__).bind(None, *args, **kwargs).arguments["conf"].engine
@@ -433,9 +442,14 @@ class SqlImpl(TableImpl):
             }
 
         elif isinstance(nd, verbs.Mutate):
+            values = nd.values
+            if query.order_by:
+                # A preceding `arrange` orders window functions without an `arrange`
+                # argument (on polars, they see the sorted frame).
+                values = [with_default_arrange(val, query.order_by) for val in values]
             sqa_expr |= {
                 uid: sqa.label(name, cls.compile_col_expr(val, sqa_expr))
-                for name, uid, val in zip(nd.names, nd.uuids, nd.values, strict=True)
+                for name, uid, val in zip(nd.names, nd.uuids, values, strict=True)
             }
             query.select += nd.uuids
 
